@@ -1,0 +1,32 @@
+//go:build verif
+
+package badger
+
+import (
+	"github.com/dgraph-io/badger"
+
+	"github.com/safing/portbase/database/record"
+)
+
+// VerifDump returns the metadata of every physically stored record (verification harness only).
+func (b *Badger) VerifDump() (map[string]record.Meta, error) {
+	all := make(map[string]record.Meta)
+	err := b.db.View(func(txn *badger.Txn) error {
+		it := txn.NewIterator(badger.DefaultIteratorOptions)
+		defer it.Close()
+		for it.Rewind(); it.Valid(); it.Next() {
+			item := it.Item()
+			data, err := item.ValueCopy(nil)
+			if err != nil {
+				return err
+			}
+			w, err := record.NewRawWrapper(b.name, string(item.Key()), data)
+			if err != nil {
+				return err
+			}
+			all[string(item.Key())] = *w.Meta()
+		}
+		return nil
+	})
+	return all, err
+}
